@@ -41,18 +41,18 @@ def run(ctx):
                                    TruncPos=[21, 25, 29], PointPos=[20, 25, 28, 32]), 8000),
             ]
         return [
-            ('layout', dict(common, R0=0, Rets=[0, 2, 3, 5], MaxBatch=1, MaxOps=4, MaxWrites=3), None),
-            ('prune', dict(common, R0=0, Rets=[3, 5], MaxBatch=1, MaxOps=6, MaxWrites=2, PointPos=[20, 28, 37]), 40000),
-            ('batch', dict(common, R0=2, Rets=[0, 3, 5], MaxBatch=2, MaxOps=3, MaxWrites=2), 40000),
-            ('deep', dict(common, R0=0, Rets=[0, 2, 5], MaxBatch=1, MaxOps=5, MaxWrites=3, PointPos=[13, 25, 28, 37]), 40000),
+            ('layout', dict(common, R0=0, Rets=[0, 2, 3, 5], MaxBatch=1, MaxOps=4, MaxWrites=3), 30000),
+            ('prune', dict(common, R0=0, Rets=[3, 5], MaxBatch=1, MaxOps=6, MaxWrites=2, PointPos=[20, 28, 37]), 12000),
+            ('batch', dict(common, R0=2, Rets=[0, 3, 5], MaxBatch=2, MaxOps=3, MaxWrites=2), 12000),
+            ('deep', dict(common, R0=0, Rets=[0, 2, 5], MaxBatch=1, MaxOps=5, MaxWrites=3, PointPos=[13, 25, 28, 37]), 12000),
             ('truncated', dict(common, R0=0, Rets=[0, 2, 3, 5], MaxBatch=1, MaxOps=5, MaxWrites=2, MaxTrunc=1,
-                               TruncPos=[21, 25, 29, 33], PointPos=[20, 25, 28, 32, 37]), 60000),
+                               TruncPos=[21, 25, 29, 33], PointPos=[20, 25, 28, 32, 37]), 15000),
         ]
 
     def actions(scen):
         return ['Write', 'Reload', 'SetRet', 'RetentionCheck', 'AgeDeleted', 'Truncate']
 
-    _c18.run_family(ctx, ['Retention'], mc_extra, gen_variants, actions, 1 if quick else 3)
+    _c18.run_family(ctx, ['Retention'], mc_extra, gen_variants, actions, 1 if quick else 2)
     ctx.rule = ('every TLC history of length MaxOps over write(1..2 points at 6 positions between now-7 ticks and now)/'
                 'UpdateRetentionPolicy(duration 0,2,3,5 ticks)/DeletionCheck/reload/ageing of deletion stamps/TruncateShardGroups, tick = 1h, 24h or 7d '
                 '(the ones in which the wall clock is >= 5 min from a tick boundary; rotated by seed in quick, all in thorough), '
